@@ -641,7 +641,9 @@ impl<Backing : AsRef<[u32]> + AsMut<[u32]>> DrawTarget<Backing> {
     /// Pushes a new layer as the drawing target. This is used for implementing
     /// group opacity or blend effects.
     pub fn push_layer_with_blend(&mut self, opacity: f32, blend: BlendMode) {
-        let mut rect = self.clip_bounds();
+        // nothing outside of the surface can ever be composited back, so the layer does not
+        // need to cover the part of the clip rect that lies beyond it
+        let mut rect = self.clip_bounds().intersection_unchecked(&intrect(0, 0, self.width, self.height));
         // disjoint clip rects leave an inverted box: the layer is then simply empty
         if rect.is_empty() {
             rect = IntRect::new(rect.min, rect.min);
